@@ -40,6 +40,33 @@ def _top_func(tree, name):
     return None
 
 
+def _reachable_private_methods(tree, cls, fn, depth=2):
+    """fn plus the private methods (self._name(...)) of the same class that it calls, transitively up to `depth`: a loop body moved into a
+    private helper method is still part of the method's behaviour."""
+    if fn is None:
+        return []
+    seen, frontier = [fn], [fn]
+    for _ in range(depth):
+        nxt = []
+        for f in frontier:
+            for node in ast.walk(f):
+                if (isinstance(node, ast.Call) and isinstance(node.func, ast.Attribute) and isinstance(node.func.value, ast.Name)
+                        and node.func.value.id == "self" and node.func.attr.startswith("_") and not node.func.attr.startswith("__")):
+                    g = _find_func(tree, node.func.attr, cls)
+                    if g is not None and g not in seen:
+                        seen.append(g)
+                        nxt.append(g)
+        frontier = nxt
+    return seen
+
+
+def copyback_attrs_of(tree, name, cls):
+    out = []
+    for f in _reachable_private_methods(tree, cls, _find_func(tree, name, cls)):
+        out += [a for a in copyback_attrs(f) if a not in out]
+    return out
+
+
 def copyback_attrs(fn):
     """`for attr in [..]: setattr(self, attr, getattr(new_machine, attr))` -> the literal list; also explicit `self.a = new_machine.a`."""
     found = []
@@ -115,13 +142,18 @@ def h5_written(fn):
     keys = []
     if fn is None:
         return None
+    last_local = {}     # local name -> expression last assigned to it (source order), to see through `value = self.x ... hdf5["x"] = value`
     for node in ast.walk(fn):
         if isinstance(node, ast.Assign) and len(node.targets) == 1:
             t = node.targets[0]
+            if isinstance(t, ast.Name):
+                last_local[t.id] = node.value
             if isinstance(t, ast.Subscript) and isinstance(t.slice, ast.Constant) and isinstance(t.slice.value, str):
                 if isinstance(t.value, ast.Name):
                     src = None
                     v = node.value
+                    if isinstance(v, ast.Name) and v.id in last_local:
+                        v = last_local[v.id]
                     # the attribute of self that is written (possibly wrapped: float(self.x), np.array(self.x))
                     for sub in ast.walk(v):
                         if isinstance(sub, ast.Attribute) and isinstance(sub.value, ast.Name) and sub.value.id == "self":
@@ -195,12 +227,24 @@ def ctor_bindings(stmts):
 def attr_assign_order(stmts, obj="self"):
     """Order in which `self.<attr> = <read of key>` statements appear after the constructor call."""
     out = []
+    local = {}          # local name -> expression last assigned to it (to see through `d = hdf5[k]; v = d[...]; self.a = v`)
+
+    def resolved(e, depth=3):
+        while depth and isinstance(e, ast.Name) and e.id in local:
+            e, depth = local[e.id], depth - 1
+        if depth and isinstance(e, ast.Subscript) and isinstance(e.value, ast.Name) and e.value.id in local:
+            return resolved(local[e.value.id], depth - 1)
+        if depth and isinstance(e, ast.IfExp):
+            return resolved(e.body, depth - 1)
+        return e
     for st in stmts:
         if isinstance(st, ast.Assign) and len(st.targets) == 1:
             t = st.targets[0]
+            if isinstance(t, ast.Name):
+                local[t.id] = st.value
             if isinstance(t, ast.Attribute) and isinstance(t.value, ast.Name) and t.value.id == obj:
                 k = None
-                for sub in ast.walk(st.value):
+                for sub in ast.walk(resolved(st.value)):
                     if isinstance(sub, ast.Subscript):
                         k = _subscript_key(sub)
                         if k:
@@ -227,6 +271,151 @@ def trainer_decoded(stmts):
     return False
 
 
+# ------------------------------------------------------------------ normalisation of table-driven code (before the HDF5 facts are read)
+def _literal_table(node, consts):
+    """A literal tuple/list of string constants or of tuples of string constants (possibly through a module-level name) -> python value."""
+    if isinstance(node, ast.Name) and node.id in consts:
+        return consts[node.id]
+    if isinstance(node, ast.Attribute) and isinstance(node.value, ast.Name) and node.value.id in ("self", "cls") and node.attr in consts:
+        return consts[node.attr]         # a class-level table
+    if isinstance(node, (ast.Tuple, ast.List)):
+        out = []
+        for e in node.elts:
+            if isinstance(e, ast.Constant) and isinstance(e.value, str):
+                out.append(e.value)
+            elif isinstance(e, (ast.Tuple, ast.List)) and all(isinstance(x, ast.Constant) for x in e.elts):
+                out.append(tuple(x.value for x in e.elts))
+            else:
+                return None
+        return out
+    return None
+
+
+class _Subst(ast.NodeTransformer):
+    def __init__(self, env):
+        self.env = env
+
+    def visit_Name(self, node):
+        if node.id in self.env and isinstance(node.ctx, ast.Load):
+            return ast.copy_location(ast.Constant(self.env[node.id]), node)
+        return node
+
+    def visit_JoinedStr(self, node):
+        self.generic_visit(node)
+        parts = []
+        for v in node.values:
+            if isinstance(v, ast.Constant):
+                parts.append(str(v.value))
+            elif isinstance(v, ast.FormattedValue) and isinstance(v.value, ast.Constant) and v.format_spec is None and v.conversion == -1:
+                parts.append(str(v.value.value))
+            else:
+                return node
+        return ast.copy_location(ast.Constant("".join(parts)), node)
+
+
+class _Normalise(ast.NodeTransformer):
+    """for <names> in <literal table>: body  ->  the body once per entry with the names replaced by the constants;
+    setattr(obj, "a", v) -> obj.a = v ;  getattr(obj, "a") -> obj.a ;
+    d = dict(k=v, ...) / d["k"] = v / f(**d)  ->  f(k=v, ...)   (straight-line code of one block)."""
+    def __init__(self, consts):
+        self.consts = consts
+
+    def _unroll_block(self, stmts):
+        import copy as _copy
+        out = []
+        for st in stmts:
+            if isinstance(st, ast.For) and not st.orelse:
+                table = _literal_table(st.iter, self.consts)
+                names = None
+                if isinstance(st.target, ast.Name):
+                    names = [st.target.id]
+                elif isinstance(st.target, ast.Tuple) and all(isinstance(e, ast.Name) for e in st.target.elts):
+                    names = [e.id for e in st.target.elts]
+                if table is not None and names is not None and all((isinstance(row, str) and len(names) == 1) or (isinstance(row, tuple) and len(row) == len(names)) for row in table):
+                    for row in table:
+                        env = {names[0]: row} if isinstance(row, str) else dict(zip(names, row))
+                        body = [_Subst(env).visit(_copy.deepcopy(b)) for b in st.body]
+                        out += self._unroll_block(body)
+                    continue
+            for fld in ("body", "orelse", "finalbody"):
+                if hasattr(st, fld) and isinstance(getattr(st, fld), list):
+                    setattr(st, fld, self._unroll_block(getattr(st, fld)))
+            out.append(st)
+        return self._fold_dict_kwargs([self._attr_calls(x) for x in out])
+
+    def _attr_calls(self, st):
+        class T(ast.NodeTransformer):
+            def visit_Call(s2, node):
+                s2.generic_visit(node)
+                if isinstance(node.func, ast.Name) and node.func.id == "getattr" and len(node.args) == 2 and isinstance(node.args[1], ast.Constant) and isinstance(node.args[1].value, str):
+                    return ast.copy_location(ast.Attribute(value=node.args[0], attr=node.args[1].value, ctx=ast.Load()), node)
+                return node
+        st = T().visit(st)
+        if (isinstance(st, ast.Expr) and isinstance(st.value, ast.Call) and isinstance(st.value.func, ast.Name) and st.value.func.id == "setattr"
+                and len(st.value.args) == 3 and isinstance(st.value.args[1], ast.Constant) and isinstance(st.value.args[1].value, str)):
+            tgt = ast.Attribute(value=st.value.args[0], attr=st.value.args[1].value, ctx=ast.Store())
+            return ast.copy_location(ast.Assign(targets=[tgt], value=st.value.args[2], lineno=st.lineno), st)
+        return st
+
+    def _fold_dict_kwargs(self, stmts):
+        dicts = {}
+        out = []
+        for st in stmts:
+            # d = dict(k=v, ...)
+            if (isinstance(st, ast.Assign) and len(st.targets) == 1 and isinstance(st.targets[0], ast.Name) and isinstance(st.value, ast.Call)
+                    and isinstance(st.value.func, ast.Name) and st.value.func.id == "dict" and not st.value.args and all(k.arg for k in st.value.keywords)):
+                dicts[st.targets[0].id] = [(k.arg, k.value) for k in st.value.keywords]
+                continue
+            # d = {name: expr for name in <literal table>}
+            if (isinstance(st, ast.Assign) and len(st.targets) == 1 and isinstance(st.targets[0], ast.Name) and isinstance(st.value, ast.DictComp)
+                    and len(st.value.generators) == 1 and not st.value.generators[0].ifs and isinstance(st.value.generators[0].target, ast.Name)
+                    and isinstance(st.value.key, ast.Name) and st.value.key.id == st.value.generators[0].target.id):
+                table = _literal_table(st.value.generators[0].iter, self.consts)
+                if table is not None and all(isinstance(row, str) for row in table):
+                    import copy as _copy
+                    nm = st.value.generators[0].target.id
+                    dicts[st.targets[0].id] = [(row, _Subst({nm: row}).visit(_copy.deepcopy(st.value.value))) for row in table]
+                    continue
+            # d["k"] = v
+            if (isinstance(st, ast.Assign) and len(st.targets) == 1 and isinstance(st.targets[0], ast.Subscript) and isinstance(st.targets[0].value, ast.Name)
+                    and st.targets[0].value.id in dicts and isinstance(st.targets[0].slice, ast.Constant) and isinstance(st.targets[0].slice.value, str)):
+                dicts[st.targets[0].value.id].append((st.targets[0].slice.value, st.value))
+                continue
+            # f(**d)
+            for node in ast.walk(st):
+                if isinstance(node, ast.Call):
+                    kws = []
+                    for k in node.keywords:
+                        if k.arg is None and isinstance(k.value, ast.Name) and k.value.id in dicts:
+                            kws += [ast.keyword(arg=a, value=v) for a, v in dicts[k.value.id]]
+                        else:
+                            kws.append(k)
+                    node.keywords = kws
+            out.append(st)
+        return out
+
+    def visit_FunctionDef(self, node):
+        node.body = self._unroll_block(node.body)
+        return node
+
+
+def _normalised(tree):
+    consts = {}
+    for scope in [tree.body] + [n.body for n in tree.body if isinstance(n, ast.ClassDef)]:
+        for st in scope:
+            if isinstance(st, ast.Assign) and len(st.targets) == 1 and isinstance(st.targets[0], ast.Name):
+                t = _literal_table(st.value, {})
+                if t is not None:
+                    consts[st.targets[0].id] = t
+    import copy as _copy
+    tree2 = _copy.deepcopy(tree)
+    for node in ast.walk(tree2):
+        if isinstance(node, ast.ClassDef):
+            node.body = [(_Normalise(consts).visit_FunctionDef(b) if isinstance(b, ast.FunctionDef) else b) for b in node.body]
+    ast.fix_missing_locations(tree2)
+    return tree2
+
+
 def coq_str(s):
     return '"' + str(s).replace('"', "'") + '"'
 
@@ -240,14 +429,15 @@ def extract():
     try:
         gmm = _parse("gmm.py")
         iv = _parse("ivector.py")
-        facts["gmm_copyback"] = copyback_attrs(_find_func(gmm, "fit", "GMMMachine"))
-        facts["ivector_copyback"] = copyback_attrs(_find_func(iv, "fit", "IVectorMachine"))
+        facts["gmm_copyback"] = copyback_attrs_of(gmm, "fit", "GMMMachine")
+        facts["ivector_copyback"] = copyback_attrs_of(iv, "fit", "IVectorMachine")
         facts["ml_mstep_writes"] = attr_writes(_top_func(gmm, "ml_gmm_m_step"), "machine") or ["?missing"]
         facts["map_mstep_writes"] = attr_writes(_top_func(gmm, "map_gmm_m_step"), "machine") or ["?missing"]
         facts["ivector_mstep_writes"] = attr_writes(_top_func(iv, "m_step"), "machine") or ["?missing"]
-        # HDF5: machine
-        save = _find_func(gmm, "save", "GMMMachine")
-        rd = _find_func(gmm, "from_hdf5", "GMMMachine")
+        # HDF5: machine (table-driven readers/writers are unrolled first)
+        gmm_n = _normalised(gmm)
+        save = _find_func(gmm_n, "save", "GMMMachine")
+        rd = _find_func(gmm_n, "from_hdf5", "GMMMachine")
         new, legacy = _first_branch(rd)
         facts["h5_gmm_written"] = h5_written(save) or []
         facts["h5_gmm_read"] = h5_reads(new or [])
@@ -255,8 +445,8 @@ def extract():
         facts["h5_gmm_post"] = attr_assign_order(new or [])
         facts["h5_gmm_trainer_decoded"] = trainer_decoded(new or [])
         # HDF5: statistics
-        ssave = _find_func(gmm, "save", "GMMStats")
-        srd = _find_func(gmm, "from_hdf5", "GMMStats")
+        ssave = _find_func(gmm_n, "save", "GMMStats")
+        srd = _find_func(gmm_n, "from_hdf5", "GMMStats")
         snew, slegacy = _first_branch(srd)
         facts["h5_stats_written"] = h5_written(ssave) or []
         facts["h5_stats_read"] = h5_reads(snew or [])
